@@ -246,6 +246,16 @@ Theorem C19_handle_closed : forall pint pflt pval fs src p dt,
 Proof. exact handle_closed. Qed.
 Print Assumptions C19_handle_closed.
 
+(** no memory between calls: the outcome for a path depends only on what
+    the path contains at the time of the call (overwrite the file and load
+    again: the new file's grid or refusal), and it is the outcome for a file
+    object on that content ([C19_path_equals_fileobj]) *)
+Theorem C19_load_current_content : forall pint pflt pval fs1 fs2 src p dt,
+  is_path src p -> fs1 p = fs2 p ->
+  load_surfer pint pflt pval fs1 src dt = load_surfer pint pflt pval fs2 src dt.
+Proof. exact load_current_content. Qed.
+Print Assumptions C19_load_current_content.
+
 Theorem C19_fileobj_untouched : forall pint pflt pval fs h dt,
   o_opened (load_surfer pint pflt pval fs (FileObj h) dt) = None /\
   o_given (load_surfer pint pflt pval fs (FileObj h) dt) = Some h.
